@@ -130,7 +130,7 @@ func watchedAppender() aggsync.LogAppenderMap {
 	return aggsync.LogAppenderMap{watchedTopic: f, watchedTopic2: f}
 }
 
-var logSeq atomic.Uint64
+var logSeq, twinLogs atomic.Uint64
 
 // genericLogs builds the logs of one block: nWatched watched logs interleaved with noise
 // (unwatched topic at the watched address, watched topic at another address, removed logs)
@@ -160,6 +160,13 @@ func genericLogs(g interface{ Intn(int) int }, nWatched int, noise bool) []fakes
 			t = watchedTopic2
 		}
 		add(watchedAddr, t, false)
+		if noise && g.Intn(6) == 0 {
+			// the removed twin of the log just added (a re-mined transaction): listed after the valid copy
+			tw := out[len(out)-1]
+			tw.Removed, tw.TwinOfPrev = true, true
+			out = append(out, tw)
+			twinLogs.Add(1)
+		}
 	}
 	if noise && g.Intn(4) == 0 {
 		add(watchedAddr, ignoredTopic, false)
